@@ -26,7 +26,7 @@ MIN_NONTRIVIAL = {"quick": 120, "thorough": 1200}
 REQUIRED_PROBES = ["pipe_reduce"]
 REQUIRED_FEATURES = ["map:builtin", "map:eager", "map:reverse-ordered", "map:unordered-permuted", "map:bursty-unordered",
                      "map:pool.map", "map:pool.imap", "map:pool.imap_unordered", "chunksize:1", "chunksize:None",
-                     "chunksize:nnz+1", "mode:gw", "mode:cis", "mode:trans", "split-pipeline"]
+                     "chunksize:nnz+1", "mode:gw", "mode:cis", "mode:trans", "split-pipeline", "via:cli-balance"]
 SHARD_TIMEOUT = {"quick": 1800, "thorough": 7200}
 
 
@@ -52,7 +52,7 @@ def check_passes(c, evs, nnz, label, cis_ranges=None):
     passes, cur = [], None
     for e in evs:
         if e["ev"] == "pass_begin":
-            cur = {"keys": [tuple(k) for k in e["keys"]], "fetch": []}
+            cur = {"keys": [tuple(k) for k in (e["keys"] or [])], "fetch": []}
         elif e["ev"] == "fetch" and cur is not None:
             cur["fetch"].append((e["lo"], e["hi"], e["rows"], e["pid"]))
         elif e["ev"] == "pass_end" and cur is not None:
@@ -182,6 +182,43 @@ def one_history(ctx, shard, i, rng, idx):
                     c.nontrivial(repr(base_desc["bt"]), repr(base_desc["options"]), repr(sorted(P.items())[:50]), mname, cs)
                 if k < 2:
                     ctx.sample({"mode": mode, "map": mname, "chunksize": cs, "nnz": nnz, "passes": npass}, limit=6)
+        # -------- the CLI path: `cooler balance -p 2` (real Pool.imap_unordered), stored column == API result
+        cid = f"h:{shard['sub']}:{i}:cli"
+        if ctx.want(cid) and "x0" not in opts and "blacklist" not in opts and opts["rescale_marginals"] and not tie:
+            with ctx.case(cid, dict(base_desc, via="cooler balance")) as c:
+                from click.testing import CliRunner
+                from cooler.cli import cli
+                import h5py
+                cands = [cs for cs in sizes if cs is not None and cs not in small]
+                cs = cands[int(rng.integers(len(cands)))]
+                npr = int([1, 2, 3][int(rng.integers(3))])
+                args = ["balance", path, "-c", str(cs), "-p", str(npr), "--name", "wcli", "--force",
+                        "--ignore-diags", str(opts["ignore_diags"]), "--mad-max", str(opts["mad_max"]),
+                        "--min-nnz", str(opts["min_nnz"]), "--min-count", str(opts["min_count"]),
+                        "--tol", repr(opts["tol"]), "--max-iters", str(opts["max_iters"])]
+                if mode == "cis":
+                    args.append("--cis-only")
+                elif mode == "trans":
+                    args.append("--trans-only")
+                if "blacklist" in opts:
+                    bl = gen.bt_bins_list(bt)
+                    bf = os.path.join(ctx.tmp, f"bl_{shard['sub']}_{i}.bed")
+                    with open(bf, "w") as fh:
+                        for b_ in opts["blacklist"]:
+                            fh.write(f"{bl[b_][0]}\t{bl[b_][1]}\t{bl[b_][2]}\n")
+                    args += ["--blacklist", bf]
+                r = CliRunner().invoke(cli, args)
+                c.feature("via:cli-balance", f"cli-balance:nproc={npr}")
+                if r.exit_code != 0:
+                    raise (r.exception or RuntimeError(r.output[-300:]))
+                with h5py.File(path, "r") as f:
+                    wcli = f["bins/wcli"][:]
+                with np.errstate(all="ignore"):
+                    same = np.array_equal(np.isnan(wcli), np.isnan(ref["bias"])) and \
+                        np.allclose(wcli, ref["bias"], rtol=1e-9, atol=0, equal_nan=True)
+                c.check(same, f"cli-balance-weights-differ:{mode}", f"`cooler {' '.join(args[2:])}` stored weights that differ "
+                        f"from the documented procedure / the API result", {"got": wcli, "ref": ref["bias"]})
+                probes.collect_worker_events(ctx)
         # -------- cross-execution agreement
         cid = f"h:{shard['sub']}:{i}:agree"
         if ctx.want(cid) and len(results) >= 2:
